@@ -45,6 +45,28 @@ Proof.
   apply orb_false_iff in H' as [H1 H2]. apply negb_false_iff in H1. auto.
 Qed.
 
+(** a recorded finding is THIS failure: every excluded row has a recorded resolution, and reading the row's token
+    gives exactly the recorded member (another member sharing the token, or the row itself when it is the one the
+    shared token resolves to) *)
+Lemma all_known_back : forallb (fun e => forallb (fun m =>
+    negb (memN (m_id m) known_bij)
+    || match back_of known_back (m_id m) with Some j => back_is (e_rows e) m j | None => false end) (e_rows e)) enums = true.
+Proof. vm_compute. reflexivity. Qed.
+
+Lemma known_back_resolution : forall e, In e enums -> forall m, In m (e_rows e) ->
+  memN (m_id m) known_bij = true ->
+  exists j m', back_of known_back (m_id m) = Some j
+    /\ from_xml (e_rows e) (token (canon_of (e_rows e) m)) = Ok m' /\ m_id m' = j.
+Proof.
+  intros e He m Hm Hk.
+  pose proof (proj1 (forallb_forall _ _) all_known_back e He) as H. cbv beta in H.
+  pose proof (proj1 (forallb_forall _ _) H m Hm) as H'. cbv beta in H'.
+  rewrite Hk in H'. cbn [negb orb] in H'.
+  destruct (back_of known_back (m_id m)) as [j|]; [|discriminate].
+  unfold back_is in H'. destruct (from_xml (e_rows e) (token (canon_of (e_rows e) m))) as [m'|] eqn:E; [|discriminate].
+  apply N.eqb_eq in H'. exists j, m'. auto.
+Qed.
+
 (** *** tokens in the schema *)
 Local Notation tok_ok := (EnumLib.tok_ok stypes).
 Local Notation use_rows := (EnumLib.use_rows enums).
